@@ -330,7 +330,10 @@ impl SwiftField for Field57 {
                 let field = Field57D::parse(value)?;
                 Ok(Field57::D(field))
             }
-            _ => {
+            Some(other) => Err(ParseError::InvalidFormat {
+                message: format!("Option {} is not supported by this field", other),
+            }),
+            None => {
                 // No variant specified, fall back to default parse behavior
                 Self::parse(value)
             }
@@ -509,7 +512,10 @@ impl SwiftField for Field57DebtInstitution {
                 let field = Field57D::parse(value)?;
                 Ok(Field57DebtInstitution::D(field))
             }
-            _ => {
+            Some(other) => Err(ParseError::InvalidFormat {
+                message: format!("Option {} is not supported by this field", other),
+            }),
+            None => {
                 // No variant specified, fall back to default parse behavior
                 Self::parse(value)
             }
